@@ -22,7 +22,7 @@ META = dict(
 
 PRE = '''void probe(sbx_t& sb, tn<int*>& tgood, tn<int**>& pp, tn<VS*>& ps, tn<int (**)(long)>& pf, tn<int* (*)[3]>& pa, int* raw, const int* craw,
            int (*rawfn)(long), int* (&rawarr)[3], std::array<int*, 3>& rawstd, tn2<int*>& other_t, to2<int*>& other_o, scb2<int (*)(long)>& other_cb,
-           scb<int (*)(long)>& cb_ok, scb<long (*)(int)>& cb_othersig, VS& plainstruct, tn<VS>& tstruct, to<int*>& opq)
+           scb<int (*)(long)>& cb_ok, scb<long (*)(int)>& cb_othersig, VS& plainstruct, tn<VS>& tstruct, to<int*>& opq, tn2<VS>& other_struct, tn2<int>& other_int)
 {
   %s
 }
@@ -72,6 +72,11 @@ def grid():
     # structs
     neg.append(('invoke by-value struct <- plain struct', 'sb.invoke_sandbox_function(g_take_struct, plainstruct);'))
     neg.append(('tainted_volatile<struct> <- plain struct', '*ps = plainstruct;'))
+    neg.append(('tainted_volatile<struct> <- tainted struct of another sandbox type', '*ps = other_struct;'))
+    neg.append(('invoke by-value struct <- tainted struct of another sandbox type', 'sb.invoke_sandbox_function(g_take_struct, other_struct);'))
+    neg.append(('tainted<struct> <- tainted struct of another sandbox type', 'tn<VS> t = other_struct; (void)t;'))
+    neg.append(('struct field <- tainted int of another sandbox type', 'ps->a = other_int;'))
+    neg.append(('tainted_volatile<int> <- tainted int of another sandbox type', 'auto pi_ = rlbox::sandbox_reinterpret_cast<int*>(tgood); *pi_ = other_int;'))
     pos.append(('invoke by-value struct <- tainted struct', 'sb.invoke_sandbox_function(g_take_struct, tstruct);'))
     pos.append(('tainted_volatile<struct> <- tainted struct', '*ps = tstruct;'))
     # other invoke arguments
